@@ -2,7 +2,7 @@
   Proofs/MuxTTheorems.lean — proofs of the C08 property theorems of the ThriftMux transport, in the
   namespace of its model; Props/C08.lean restates them in one namespace.
 -/
-import ScalesModel.Proofs.MuxTLemmas
+import ScalesModel.Proofs.MuxTSpecLemmas
 set_option linter.unusedSimpArgs false
 set_option linter.unusedVariables false
 
